@@ -1,52 +1,39 @@
 #!/usr/bin/env python3
-"""Runs every claimed check against every seeded change (applied to /repo, then reverted) and writes
-/verif/seeded/MATRIX.json + MATRIX.md: which rules catch which change. Checks for one seed run in parallel."""
-import json, os, shutil, subprocess, sys, glob, concurrent.futures as cf
-os.chdir('/verif')
-props = [c['property_id'] for c in json.load(open('MANIFEST.json'))['checks']]
+"""Runs every claimed check against every seeded faulty change kept under /verif/seeded/<id>/, each applied in its own
+scratch worktree of /repo's HEAD, and writes /verif/seeded/MATRIX.json + MATRIX.md: which rules catch which change.
+usage: seed_matrix.py [id ...]"""
+import json, os, sys, glob, concurrent.futures as cf
+sys.path.insert(0, '/verif/tools')
+import matrix_common as mc
 only = sys.argv[1:]
-def run(p):
-    # a scratch output directory so evidence/ is not rewritten from a patched tree; the committed
-    # known-findings file is copied in so that listed findings are not counted as detections
-    os.makedirs('/tmp/seedmatrix_' + p, exist_ok=True)
-    shutil.copy('known_findings.json', '/tmp/seedmatrix_' + p + '/known_findings.json')
-    r = subprocess.run(['bin/verifchk', '-prop', p, '-tier', 'quick', '-repo', '/repo', '-verif', '/tmp/seedmatrix_' + p], capture_output=True, text=True)
-    rules = []
-    for line in r.stdout.splitlines():
-        line = line.strip()
-        if line.startswith('rule=') and ('[violation]' in line or '[undecided]' in line):
-            rules.append(line.split()[0][5:] + ' ' + line.split()[1][10:])
-    viol = [l for l in r.stdout.splitlines() if l.startswith('VIOLATION ')]
-    return p, (1 if viol or r.returncode != 0 else 0), rules
-subprocess.run(['./setup.sh'], capture_output=True)
-assert subprocess.run(['git', '-C', '/repo', 'status', '--porcelain'], capture_output=True, text=True).stdout.strip() == '', '/repo not clean'
-out = {}
-for d in sorted(glob.glob('seeded/*/')):
-    sid = os.path.basename(d.rstrip('/'))
-    if only and sid not in only: continue
-    meta = json.load(open(d + 'meta.json'))
-    ap = subprocess.run(['git', '-C', '/repo', 'apply', os.path.abspath(d + 'patch.diff')], capture_output=True, text=True)
-    if ap.returncode != 0:
-        out[sid] = {'property': meta['property'], 'applies': False, 'note': 'patch no longer applies to the repaired tree (the region was changed by a fix: commit)'}
-        print(sid, 'DOES NOT APPLY'); continue
-    try:
-        with cf.ThreadPoolExecutor(max_workers=16) as ex:
-            res = list(ex.map(run, props))
-    finally:
-        subprocess.run(['git', '-C', '/repo', 'checkout', '--', '.'])
-        subprocess.run(['git', '-C', '/repo', 'clean', '-fdq'])
-    caught = {p: rules for p, rc, rules in res if rc == 1}
-    own = meta['property'] in caught
-    out[sid] = {'property': meta['property'], 'applies': True, 'caught_by_own_property_check': own, 'firing': caught}
-    print(sid, 'own-check:', 'CAUGHT' if own else 'missed', '| all:', {p: len(r) for p, r in caught.items()})
-for p in props:
-    subprocess.run(['rm', '-rf', '/tmp/seedmatrix_' + p])
-if not only:
-    json.dump(out, open('seeded/MATRIX.json', 'w'), indent=1, sort_keys=True)
-    with open('seeded/MATRIX.md', 'w') as f:
-        f.write('| seed | property | own check | rules that fire (property: rule construct) |\n|---|---|---|---|\n')
-        for sid, v in sorted(out.items()):
-            if not v['applies']:
-                f.write(f"| {sid} | {v['property']} | n/a | {v['note']} |\n"); continue
-            fire = '; '.join(f"{p}: {', '.join(sorted(set(r.split()[0] for r in rs)))}" for p, rs in sorted(v['firing'].items()))
-            f.write(f"| {sid} | {v['property']} | {'caught' if v['caught_by_own_property_check'] else 'MISSED'} | {fire or '-'} |\n")
+mc.setup('seedmatrix')
+mpath = 'seeded/MATRIX.json'
+out = json.load(open(mpath)) if (only and os.path.exists(mpath)) else {}
+ids = [os.path.basename(d.rstrip('/')) for d in sorted(glob.glob('seeded/*/'))]
+ids = [i for i in ids if not only or i in only]
+metas = {i: json.load(open(f'seeded/{i}/meta.json')) for i in ids}
+def one(sid):
+    applies, caught = mc.run_patch(sid, f'seeded/{sid}/patch.diff')
+    return sid, applies, caught
+with cf.ThreadPoolExecutor(max_workers=4) as ex:
+    for sid, applies, caught in ex.map(one, ids):
+        meta = metas[sid]
+        status = meta.get('status_on_current_tree', '')
+        if not applies:
+            out[sid] = {'property': meta['property'], 'applies': False, 'note': status or 'patch no longer applies to the repaired tree (the region was changed by a fix: commit)'}
+            print(sid, 'DOES NOT APPLY'); continue
+        own = meta['property'] in caught
+        out[sid] = {'property': meta['property'], 'applies': True, 'caught_by_own_property_check': own, 'firing': {p: [r.split()[0][5:] + ' ' + r.split()[1][10:] for r in rs if r.startswith('rule=')] for p, rs in caught.items()}}
+        if status: out[sid]['status_on_current_tree'] = status
+        print(sid, 'own-check:', 'CAUGHT' if own else 'missed', '| all:', {p: len(r) for p, r in caught.items()}, flush=True)
+mc.teardown()
+json.dump(out, open(mpath, 'w'), indent=1, sort_keys=True)
+with open('seeded/MATRIX.md', 'w') as f:
+    f.write('| seed | property | own check | rules that fire (property: rule) |\n|---|---|---|---|\n')
+    for sid, v in sorted(out.items()):
+        if not v['applies']:
+            f.write(f"| {sid} | {v['property']} | n/a | {v['note']} |\n"); continue
+        fire = '; '.join(f"{p}: {', '.join(sorted(set(r.split()[0] for r in rs)))}" for p, rs in sorted(v['firing'].items()))
+        own = 'caught' if v['caught_by_own_property_check'] else 'MISSED'
+        if v.get('status_on_current_tree'): own = 'retired'
+        f.write(f"| {sid} | {v['property']} | {own} | {fire or '-'} |\n")
